@@ -82,3 +82,56 @@ def split_netloc_roundtrip(ex, st, contract, full, raises, res):
         expected = VTuple([exp_user, password, exp_host, port])
         st.ctx.add(z3.Implies(ok, z3.And(z3.Not(raises), ex.equal(st, res, expected))))
         ex.lemmas_used.add("contracts.spec_parse:lemma_netloc_roundtrip")
+
+
+# ---------------------------------------------------------------- Writer obligations (C19, C05)
+
+BUF_SIZE = 8192
+
+
+def writer_pre(ex, st, args):
+    """WINV(writer): 0 <= pos <= size, size == size of the block, a multiple of BUF_SIZE, and the
+    block is the static BUFFER exactly when size == BUF_SIZE (ghost: one live heap block otherwise)"""
+    import z3
+    w = args[0]
+    blk = w.fields["buf"]
+    size, pos = w.fields["size"].t, w.fields["pos"].t
+    k = z3.Int("size_k")
+    st.assume(z3.And(0 <= pos, pos <= size, size == blk.fields["size"].t, size == BUF_SIZE * k, k >= 1,
+                     blk.fields["static"].t == (size == BUF_SIZE)))
+    if len(args) > 1 and isinstance(args[1], VInt):
+        st.assume(z3.And(args[1].t >= 0, args[1].t < 128))      # every call site passes an ASCII character
+    st.ghost["live"] = VInt(z3.If(blk.fields["static"].t, 0, 1))
+    return {"pos": pos, "size": size, "changed": w.fields["changed"].t, "mem": blk.fields["mem"].obj,
+            "static": blk.fields["static"].t, "live": st.ghost["live"].t, "blk": blk}
+
+
+def write_char_post(ex, st, pre, flow, val, args):
+    """_write_char: returns 0 with the character appended (earlier content preserved), the flag
+    or-ed and WINV kept; or returns -1 with MemoryError pending and the writer as it was"""
+    import z3
+    from pyvc import values as V
+    w = st.tr(args[0])
+    ch, changed = args[1], args[2]
+    blk = w.fields["buf"]
+    size, pos, chg = w.fields["size"].t, w.fields["pos"].t, w.fields["changed"].t
+    mem = blk.fields["mem"].obj
+    live = st.ghost["live"].t
+    if flow != "return":
+        ex.oblige(st, "_write_char:terminates-by-return", "post", z3.BoolVal(False), None, {})
+        return
+    rc = val.t
+    winv = z3.And(0 <= pos, pos <= size, size == blk.fields["size"].t, size % BUF_SIZE == 0, size >= BUF_SIZE,
+                  blk.fields["static"].t == (size == BUF_SIZE), live == z3.If(blk.fields["static"].t, 0, 1))
+    ex.oblige(st, "_write_char:returns-0-or--1", "post", z3.Or(rc == 0, rc == -1), None, {})
+    ex.oblige(st, "_write_char:writer-invariant-kept(size,pos,block,one-live-heap-block-iff-grown)", "post", winv, None, {})
+    cht = changed.t if hasattr(changed.t, "sort") and changed.t.sort().name() == "Bool" else (changed.t != 0)
+    old_changed = pre["changed"]
+    ok = z3.And(pos == pre["pos"] + 1,
+                (chg != 0) == z3.Or(old_changed != 0, cht),
+                mem[pre["pos"]] == ch.t,
+                V.str_eq(st.ctx, V.VStr(mem, 0, pre["pos"], kind="bytes"), V.VStr(pre["mem"], 0, pre["pos"], kind="bytes")))
+    ex.oblige(st, "_write_char:on-success-char-appended,content-preserved,flag-or-ed", "post", z3.Implies(rc == 0, ok), None, {})
+    fail = z3.And(pos == pre["pos"], size == pre["size"], chg == old_changed, blk.fields["static"].t == pre["static"],
+                  z3.BoolVal(getattr(st, "pending_exc", None) is MemoryError))
+    ex.oblige(st, "_write_char:on-failure-MemoryError-set-writer-unchanged", "post", z3.Implies(rc == -1, fail), None, {})
